@@ -59,6 +59,9 @@ def run(tier):
     from .common import Relabel
     c20._b_key_params(Relabel(chk, {"C20.b": "C12.e-cache"}), [x for x in c20._sites() if x.mod.name.endswith("services.manifold")])
     c10._a_propagate(Relabel(chk, {"C10.a": "C12.d-propagate", "C10.b": "C12.d-propagate", "C10.d": "C12.d-propagate"}))
+    # the public facade binds every argument to the service parameter it is meant for (nominal swap rule, rules/common.py)
+    from . import common as _common
+    _common.facade_bindings(chk, "C12.e-facade", ['hiten.system.manifold'], floor=1)
     return chk
 
 
